@@ -1264,5 +1264,26 @@ Fixpoint type_of (e : expr) : res ty :=
       infer_index t ti
   end.
 
+(* stmtctx.fini_expression: a statement whose type contains anytype / anyobject is rejected
+   ("expression returns value of indeterminate type") *)
+Fixpoint has_generic (t : ty) : bool :=
+  match t with
+  | TAny | TAnyObject => true
+  | TArr e | TRng e | TMRng e => has_generic e
+  | TTup _ els => (fix go (l : list (N * ty)) : bool :=
+                     match l with [] => false | (_, x) :: l' => has_generic x || go l' end) els
+  | _ => false
+  end.
+
+Definition stmt_type (e : expr) : res ty :=
+  t <- type_of e ;; if has_generic t then Err EGeneric else Ok t.
+
 End TypeOf.
 End WithSig.
+
+(* user-schema additions appended to the generated std signature by the harness *)
+Definition sig_extend (sg : sig) (scs : list scalar_def) (obs : list objtype_def)
+           (cs : list cast_def) (fs : list callable) : sig :=
+  mk_sig (sg_scalars sg ++ scs) (sg_objtypes sg ++ obs) (sg_casts sg ++ cs) (sg_callables sg ++ fs)
+         (sg_json sg) (sg_uuid sg) (sg_str sg) (sg_bytes sg)
+         (sg_union sg) (sg_coalesce sg) (sg_if sg).
